@@ -591,6 +591,41 @@ def generate(repo):
                 f"{t_fresh}.\n", {'test': U(t), 'fresh': U(fr.value)})
     out.item('source_ids', source_ids)
 
+    # ------------------------------------------ SearchCatalog.register
+    def entry_searches():
+        f = find_def(s_tree, 'SearchCatalog.register')
+        params = [a.arg for a in f.args.args]
+        need(len(params) == 3, f"register parameters {params}", f)
+        sname, uname = params[1], params[2]
+        fors = [n for n in ast.walk(f) if isinstance(n, ast.For)
+                and U(n.iter) == f'self._expand_path({uname})']
+        lp = one(fors, "register: loop over the expanded paths", f)
+        need(isinstance(lp.target, ast.Name), "register: loop target", lp)
+        pv = lp.target.id
+        inside = {id(m) for b in lp.body for m in ast.walk(b)}
+        news = [n for n in ast.walk(f) if isinstance(n, ast.Assign)
+                and any(U(t) == f'self._entries[{pv}]' for t in n.targets)]
+        a = one(news, "register: creation of a catalog entry", f)
+        need(id(a) in inside, "register: the entry is not created inside "
+             "the per-path loop", a)
+        need(isinstance(a.value, ast.Dict), "register: a new entry is not a "
+             f"dict literal built for that path: {U(a.value)}", a)
+        kv = {U(k): v for k, v in zip(a.value.keys, a.value.values)
+              if k is not None}
+        need(None not in a.value.keys, "register: entry built with ** "
+             "unpacking", a)
+        need("'searches'" in kv and isinstance(kv["'searches'"], ast.List)
+             and [U(x) for x in kv["'searches'"].elts] == [sname],
+             "register: a new entry's 'searches' is not a fresh one-element "
+             f"list [{sname}] created for that path", a)
+        need(U(kv.get("'path'")) == pv if "'path'" in kv else False,
+             "register: entry path is not the loop path", a)
+        return ("(* SearchCatalog.register: every new entry gets its OWN "
+                f"list: {U(a)} (inside the per-path loop) *)\n"
+                "Definition catalog_entry_searches_fresh_per_path : bool := "
+                "true.\n", {'stmt': U(a)})
+    out.item('catalog_entry_searches_fresh_per_path', entry_searches)
+
     # --------------------------------- ResultStoreParallel.local (per task)
     def local_store():
         with open(os.path.join(repo, 'searchkit/results_store.py'),
